@@ -21,12 +21,13 @@ from .. import alpha, core, gutil, harvest, lib, ref, sxvm
 from ..gutil import close, maxabs
 
 LEVEL = "exploration"
-RULE = ("algebra vectors: axes x angles {0, denormal, 1e-200 ... pi, pi+0.1, 4.5, 6, 6.2} x translation alphabets + both adjacent doubles of "
+RULE = ("algebra vectors: axes x angles {0, denormal, 1e-200 ... pi, pi+0.1, 4.5, 6, 6.2, 2 pi - {2e-2, 3e-3, 1e-3, 2e-4, 1e-5}} x translation alphabets + both adjacent doubles of "
         "each harvested branch boundary of the compiled Jacobians; every unit direction judged through the full Jacobian matrix. "
         "non-trivial = x != 0; distinct by raw bytes")
 ASSUMPTIONS = ["scipy.linalg.expm_frechet (double) is the reference differential of expm",
-               "inverse identities are judged with tolerance 1e-9 * cond",
+               "inverse Jacobians are judged entry-wise with tolerance 1e-9 * (1 + 1e-4 / (2 pi - theta)^2) * (1 + max|J^-1|); rotation angles within 1e-6 of the full turn are not explored",
                "values between alphabet members not covered"]
+NEAR_FULL_TURN = [2e-2, 3e-3, 1e-3, 2e-4, 1e-5]
 HANDLES = {"so3": "SO3Quat", "se3": "SE3Quat", "se23": "SE23Quat"}
 
 
@@ -87,6 +88,12 @@ def explore_algebra(case):
                 parts = [b.copy() for b in base]
                 parts[rs] = ax * t
                 elems.append(dict(tag="harvest(theta=%r)" % t, p=np.concatenate(parts)))
+    # the upper end of the stated domain [0, 2 pi): the inverse Jacobians have their pole at 2 pi; members approach it from below
+    for k, ax in enumerate(alpha.axes(seed)):
+        for d in NEAR_FULL_TURN:
+            parts = [b.copy() * (1.0 if k % 2 == 0 else -0.5) for b in base]
+            parts[rs] = ax * (2 * math.pi - d)
+            elems.append(dict(tag="full_turn_minus(%g)" % d, p=np.concatenate(parts)))
     part, nparts = case.get("part", 0), case.get("nparts", 1)
     elems = elems[part::nparts]
     na = B.na
@@ -94,9 +101,10 @@ def explore_algebra(case):
     for e in elems:
         x = e["p"]
         th = float(np.linalg.norm(gutil.slots_of(AL, x)[rs]))
-        if th >= 2 * math.pi - 0.05:
+        if th >= 2 * math.pi - 1e-6:
             res.count("excluded_by_reference")
             continue
+        delta = 2 * math.pi - th
         res.count("evaluations")
         if maxabs(x) > 0:
             res.nontrivial.add(hash(x.tobytes()))
@@ -116,7 +124,8 @@ def explore_algebra(case):
         for nm, nmi, Jref in (("left_jacobian", "left_jacobian_inv", Jl_ref), ("right_jacobian", "right_jacobian_inv", Jr_ref)):
             Ji = B.call(nmi, x)
             Jiref = np.linalg.inv(Jref)
-            ok, er = close(Ji, Jiref, scale=(1 + maxabs(Jiref)) * max(1.0, cond))
+            # float evaluation of the closed forms loses eps / delta^2 to cancellation in cos(theta) - 1 next to the pole
+            ok, er = close(Ji, Jiref, scale=(1 + maxabs(Jiref)) * (1.0 + 1e-4 / delta ** 2))
             if not ok:
                 res.fail(site="%s.%s" % (alg, nmi), clause="inverse_jacobian_is_matrix_inverse", cls=cls,
                          detail=dict(x=x, tag=e["tag"], err=er, cond=cond), sub="algebra", case=case)
@@ -167,7 +176,7 @@ def explore_Q(case):
     for e in elems:
         x = e["p"]
         th = float(np.linalg.norm(x[3:]))
-        if th >= 2 * math.pi - 0.05:
+        if th >= 2 * math.pi - 1e-6:
             continue
         res.count("evaluations")
         if maxabs(x) > 0:
@@ -269,6 +278,52 @@ def explore_kinematic(case):
     return res
 
 
+def explore_pyapi(case):
+    """numeric Python-API path, object reuse and call history (see mc/numapi.py)"""
+    from .. import numapi
+    tier, seed, which = case["tier"], case["seed"], case["which"]
+    res = core.Result()
+    if which in ("SO3Quat", "SO3Mrp"):
+        B = lib.built(which)
+        kind = which[3:]
+        rvs = alpha.rotvecs(seed, small=(tier != "thorough"))
+        elems = []
+        for v in rvs:
+            for tag, p, R in alpha.rot_reps(kind, v):
+                if kind == "Mrp" and float(p @ p) > 1e4:
+                    continue
+                elems.append(p)
+        targets = ["g_left_jacobian", "g_right_jacobian"]
+        numapi.check_group(res, B, elems, [], case, "pyapi", targets)
+        numapi.check_history(res, B, elems, [], case, "pyapi", targets, ["to_Matrix", "Ad", "inverse", "log", "product"] + targets)
+        for p in elems:
+            res.nontrivial.add(hash(p.tobytes()))
+    else:
+        B = lib.built(HANDLES[which])
+        AL = lib.alg_layout(B.G)
+        xs = [e["p"] for e in alpha.elements(AL, seed, small=True, cap_product=60 if tier != "thorough" else 400)]
+        xs = [x for x in xs if np.linalg.norm(gutil.slots_of(AL, x)[-1]) < 2 * math.pi - 0.05]
+        targets = ["left_jacobian", "right_jacobian", "left_jacobian_inv", "right_jacobian_inv"]
+        numapi.check_group(res, B, [], xs, case, "pyapi", targets, tol=1e-9)
+        numapi.check_history(res, B, [], xs, case, "pyapi", targets, ["exp", "ad", "wedge"] + targets, tol=1e-9)
+        for x in xs:
+            if maxabs(x) > 0:
+                res.nontrivial.add(hash(x.tobytes()))
+    res.outcomes.add(len(res.fails))
+    res.samples.append(dict(which=which, pyapi=True))
+    return res
+
+
+class _SubP:
+    chunks = 1
+
+    def cases(self, tier, seed):
+        return [dict(tier=tier, seed=seed, which=w) for w in ("SO3Quat", "SO3Mrp", "so3", "se3", "se23")]
+
+    def run(self, case):
+        return explore_pyapi(case)
+
+
 class _SubA:
     chunks = 1
 
@@ -299,5 +354,6 @@ class _SubK:
         return explore_kinematic(case)
 
 
-SUBCHECKS = {"algebra": _SubA(), "Q": _SubQ(), "kinematic": _SubK()}
-REPLAY = {"algebra": lambda c: explore_algebra(c).fails, "Q": lambda c: explore_Q(c).fails, "kinematic": lambda c: explore_kinematic(c).fails}
+SUBCHECKS = {"algebra": _SubA(), "Q": _SubQ(), "kinematic": _SubK(), "pyapi": _SubP()}
+REPLAY = {"algebra": lambda c: explore_algebra(c).fails, "Q": lambda c: explore_Q(c).fails, "kinematic": lambda c: explore_kinematic(c).fails,
+          "pyapi": lambda c: explore_pyapi(c).fails}
